@@ -698,7 +698,7 @@ def tokenizer_tables(ast, which, known=None):
         try:
             c2, _ = char_cuts([it["body"]] + [M.methods[n]["body"] for n in new_private])
             cl2 = classes_from_cuts(c2)
-            cfg = Config(acquire={}, primitives=set(M.methods) - {name} - new_private, inline={n: M.methods[n] for n in new_private}, guards=guards, samples=[], accessors=accessors, consts=CONSTS)
+            cfg = Config(acquire={}, primitives=set(M.methods) - {name} - new_private, inline={n: dict(M.methods[n], new_private=True) for n in new_private}, guards=guards, samples=[], accessors=accessors, consts=CONSTS)
             hp[name] = project_fn(tabulate_fn(it, cfg, cl2))
         except Unsupported as e:
             out["errors"][name] = str(e)
@@ -947,6 +947,82 @@ def pat_subsumes(big, small):
     return False
 
 
+# ---------------------------------------------------------------- pattern universe (enum variants) and exhaustiveness
+_BUILTIN_ENUMS = [frozenset({"None", "Some"}), frozenset({"Ok", "Err"}), frozenset({"true", "false"})]
+UNIVERSE = {}
+
+
+def set_universe(enums):
+    """enums: iterable of iterables of variant names (every enum of the analysed crates)"""
+    UNIVERSE.clear()
+    for vs in list(enums) + _BUILTIN_ENUMS:
+        fs = frozenset(vs)
+        for v in fs:
+            lst = UNIVERSE.setdefault(v, [])
+            if fs not in lst:
+                lst.append(fs)
+
+
+set_universe([])
+_W = ("wild",)
+
+
+def _head(p):
+    if p[0] in ("ctor", "struct"):
+        return p[1]
+    if p[0] == "lit" and (p[1][:1].isupper() or p[1] in ("true", "false")) and p[1].replace("_", "").isalnum():
+        return p[1]
+    return None
+
+
+def _variants_for(heads):
+    if heads == {""}:
+        return frozenset({""})
+    cands = None
+    for h in heads:
+        es = UNIVERSE.get(h)
+        if not es:
+            return None
+        cands = set(es) if cands is None else cands & set(es)
+    if cands is None or len(cands) != 1:
+        return None
+    return next(iter(cands))
+
+
+def exhaustive(rows):
+    """rows: lists (equal length) of alternative-free patterns; True only when every value tuple is matched by some row"""
+    if not rows:
+        return False
+    if not rows[0]:
+        return True
+    col = [r[0] for r in rows]
+    if all(p[0] == "wild" for p in col):
+        return exhaustive([r[1:] for r in rows])
+    heads = {_head(p) for p in col if p[0] != "wild"}
+    uni = None if None in heads else _variants_for(heads)
+    if uni is None:
+        return exhaustive([r[1:] for r in rows if r[0][0] == "wild"])
+    for v in uni:
+        fields = sorted({k for r in rows if r[0][0] == "struct" and r[0][1] == v for k in r[0][2]})
+        arity = max([len(r[0][2]) for r in rows if r[0][0] == "ctor" and r[0][1] == v] + [0])
+        sub = []
+        for r in rows:
+            p = r[0]
+            if p[0] == "wild":
+                sub.append([_W] * (len(fields) or arity) + r[1:])
+            elif _head(p) == v:
+                if p[0] == "struct":
+                    sub.append([p[2].get(k, _W) for k in fields] + r[1:])
+                elif p[0] == "ctor":
+                    args = list(p[2]) + [_W] * (arity - len(p[2]))
+                    sub.append(([_W] * len(fields) if fields else args) + r[1:])
+                else:
+                    sub.append([_W] * (len(fields) or arity) + r[1:])
+        if not exhaustive(sub):
+            return False
+    return True
+
+
 def _covered(g):
     """some pattern test that holds is covered by the pattern tests (same scrutinee) that do not hold: infeasible"""
     pos, neg = [], {}
@@ -977,6 +1053,15 @@ def _covered(g):
             if fx:
                 fn += fx
         if fn and all(any(pat_subsumes(b, a) for b in fn) for a in fp):
+            return True
+    # the pattern tests that do not hold leave no value over (their union is the whole type)
+    for (sc, inst), ns in neg.items():
+        rows = []
+        for x in ns:
+            fx = _flat_alts(x)
+            if fx:
+                rows += [[y] for y in fx]
+        if len(ns) > 1 and rows and exhaustive(rows):
             return True
     return False
 
